@@ -59,6 +59,23 @@ pub fn handle(line: &str) -> Result<String, String> {
                 }
             }
         }
+        ("callspans", 1) => {
+            // byte ranges of every call expression, straight from pest's pairs (independent of error.rs)
+            let input = a[0].as_atom()?;
+            match G::parse(Rule::program, input) {
+                Err(_) => Ok("fail".to_string()),
+                Ok(pairs) => {
+                    let mut out = vec![];
+                    for p in pairs.flatten() {
+                        if p.as_rule() == Rule::call_expr {
+                            let sp = p.as_span();
+                            out.push(Sexp::list(vec![Sexp::num(sp.start()), Sexp::num(sp.end())]));
+                        }
+                    }
+                    Ok(Sexp::tagged("ok", out).to_string())
+                }
+            }
+        }
         _ => Err("bad peg case".into()),
     }
 }
